@@ -76,8 +76,10 @@ func (k Keeper) AddAllowedBidders(ctx context.Context, auctionId uint64, allowed
 		if err != nil {
 			return err
 		}
-		// The entry belongs to the auction it is stored under, whatever id the caller put in the record
+		// The entry belongs to the auction it is stored under, whatever id the caller put in the record,
+		// and carries the canonical spelling of the bidder address (it is matched against bids as a string)
 		ab.AuctionId = auctionId
+		ab.Bidder = bidder.String()
 		if err := k.AllowedBidder.Set(ctx, collections.Join(auctionId, bidder), ab); err != nil {
 			return err
 		}
@@ -448,7 +450,7 @@ func (k Keeper) CreateFixedPriceAuction(ctx context.Context, msg *types.MsgCreat
 	ba := types.NewBaseAuction(
 		nextId,
 		types.AuctionTypeFixedPrice,
-		msg.Auctioneer,
+		auctioneer.String(), // canonical spelling of the address
 		types.SellingReserveAddress(nextId).String(),
 		types.PayingReserveAddress(nextId).String(),
 		msg.StartPrice,
@@ -562,7 +564,7 @@ func (k Keeper) CreateBatchAuction(ctx context.Context, msg *types.MsgCreateBatc
 	ba := types.NewBaseAuction(
 		nextId,
 		types.AuctionTypeBatch,
-		msg.Auctioneer,
+		auctioneer.String(), // canonical spelling of the address
 		types.SellingReserveAddress(nextId).String(),
 		types.PayingReserveAddress(nextId).String(),
 		msg.StartPrice,
@@ -658,7 +660,11 @@ func (k Keeper) CancelAuction(ctx context.Context, msg *types.MsgCancelAuction) 
 		return err
 	}
 
-	if auction.GetAuctioneer().String() != msg.Auctioneer {
+	signer, err := sdk.AccAddressFromBech32(msg.Auctioneer)
+	if err != nil {
+		return err
+	}
+	if !auction.GetAuctioneer().Equals(signer) {
 		return sdkerrors.Wrap(errors.ErrUnauthorized, "only the auctioneer can cancel the auction")
 	}
 
